@@ -735,3 +735,48 @@ def must_pass(fn, start, targets, goals):
             return False
         st.extend(S[x])
     return True
+
+
+def must_pass_cp(fn, start, targets, goals, max_states=20000):
+    """like must_pass, but path-sensitive for bool temporaries that are assigned constants and switched on
+    later (`matches!`, `&&`, `||` lowering): a switch on a local whose constant value is known on the
+    current path only follows the matching successor."""
+    S = fn.succ()
+    seen = set()
+    st = [(start, frozenset())]
+    n = 0
+    while st:
+        b, env = st.pop()
+        if (b, env) in seen:
+            continue
+        seen.add((b, env))
+        n += 1
+        if n > max_states:
+            return must_pass(fn, start, targets, goals)
+        if b in targets:
+            continue
+        if b in goals:
+            return False
+        e = dict(env)
+        for stt in fn.blocks[b]["s"]:
+            pl, rv, ln = stt
+            if len(pl) == 1 and rv[0] != "dead":
+                if rv[0] == "use" and rv[1][0] == "k" and str(rv[1][1]) in ("0", "1", "true", "false"):
+                    e[pl[0]] = str(rv[1][1]) in ("1", "true")
+                else:
+                    e.pop(pl[0], None)
+        t = fn.blocks[b]["t"]
+        if t["k"] == "call" and len(t["dst"]) == 1:
+            e.pop(t["dst"][0], None)
+        nxt = S[b]
+        if t["k"] == "sw" and t["dty"] == "bool":
+            p = t["d"][1] if t["d"][0] in ("c", "m") else None
+            if p is not None and len(p) == 1 and p[0] in e:
+                val = e[p[0]]
+                # targets: v=["0"] -> t[0] is the false edge, t[-1] the true (otherwise) edge
+                if t["v"] == ["0"]:
+                    nxt = [t["t"][-1]] if val else [t["t"][0]]
+        fe = frozenset(e.items())
+        for x in nxt:
+            st.append((x, fe))
+    return True
